@@ -4,18 +4,6 @@ import json, os
 I_HEADER = "From KV Require Import base.Tac ident.Msg ident.Updown ident.Local ident.IdentCheck.\nOpen Scope N_scope."
 _EVALS = ['agrees', 'c12_ok', 'c12_confined', 'c12_reply']
 
-def _f12b_known():
-    """Candidate F12b (publication shortcut serves a CA of the instance as the publisher that carries its handle): the
-    harness always runs the probe and records it in stats.json (local8181_probe); it is reported as a failure - and
-    hence printed as KNOWN-FINDING - only once known_findings.json carries an F12b entry for C12."""
-    try:
-        p = os.path.join(os.path.dirname(os.path.dirname(os.path.dirname(os.path.abspath(__file__)))), 'known_findings.json')
-        return any(f.get('id') == 'F12b' and f.get('property') == 'C12' for f in json.load(open(p)).get('findings', []))
-    except Exception:
-        return False
-
-_F12B = 1 if _f12b_known() else 0
-
 PROP = {
     'translators': [],
     'coq_targets': ['props/C12.vo', 'ident/IdentCheck.vo'],
@@ -23,17 +11,17 @@ PROP = {
     'checker_vo': 'ident/IdentCheck.vo',
     'scenario': 'c12',
     'evals': _EVALS,
-    'extra': {'quick': {'flips': 300, 'sweep': 3, 'local': 1, 'f12b': _F12B},
-              'thorough': {'sweep': 3, 'local': 1, 'f12b': _F12B}},
+    'extra': {'quick': {'flips': 300, 'sweep': 3, 'local': 1},
+              'thorough': {'sweep': 3, 'local': 1}},
     'replay_header': I_HEADER,
     'replay_footer': "\n".join("Eval vm_compute in (failing %s base_index cases)." % e for e in _EVALS),
     'stats_keys': ['messages', 'local', 'flips_not_refused', 'outcome_distribution', 'local8181_probe'],
     'assumptions': [
         'cms_sound (Section hypothesis, explicit in every theorem that needs it): CMS validation under key k succeeds iff the message was signed by k and the bytes decode to exactly what was signed. Unforgeability of RSA signatures and correctness of the DER/CMS/XML decoders (rpki crate, bcder, OpenSSL) are NOT proved',
         'the single-bit corruption sweep (quick: positions sampled per region signature / signed attributes / eContent / certificate and framing of 3 valid messages; thorough: every bit) is TESTING of decoder and signature check - exploration evidence, not proof; a flipped message may be acted upon only if it still decodes to the identical sender, recipient and payload',
-        'the proof covers the decision logic after signature validation: which key a message is validated against, what a refused / accepted message may change, which key signs the reply, and the local shortcut, where the caller\'s ID key is compared with the registered one instead of a signature (repaired tree, /repo 1a6ebc01)',
+        'the proof covers the decision logic after signature validation: which key a message is validated against, what a refused / accepted message may change, which key signs the reply, and the local shortcut, where the caller\'s ID key is compared with the registered one instead of a signature (repaired tree, /repo 1a6ebc01 and 346cb17c)',
         'outside the model: the embedded trust anchor as parent (rfc6492 refuses "ta"), resource-class name mappings of imported children (C03/F03a), certificate validity and the one-day expiry test of the implicit unsuspend, CSR contents, URI spelling rules of the publication server (C10), RRDP; a request limit is one atom mask (the harness limits all three address families at once)',
-        'the local shortcut is observed through ca_sync_parent: the requests served at the parent are derived from the difference of the parent state before and after a sync',
+        'the local shortcuts are observed through ca_sync_parent / update_repo / cas_repo_sync_single: the requests served at the parent (the queries served at the repository) are derived from the difference of the state before and after the call',
     ],
     'trusted_extra': [
         'harness/src/bin/c12.rs: abstraction of CertAuth / status-store / repository JSON and of decoded messages to model terms; the child acted for is recognised by the per-message user agent recorded in the status store',
@@ -41,7 +29,7 @@ PROP = {
 }
 
 META = {
-    'text': 'Theorems (Coq, closed under the global context; the only cryptographic input is the explicit hypothesis cms_sound: validation under key k succeeds iff signed by k and intact) about a model of the parent-side RFC 6492 handler, the publication server\'s RFC 8181 handler and the local shortcut, for every state, message and history of messages and identity updates: a request that is not refused was signed with the ID key registered at that moment for the sender named in the message (RFC 8181: in the URL) and is acted upon for that sender only; anything else - another child\'s key, a replaced identity, a random key, unknown sender, altered content - is refused with state and history unchanged; effects of an accepted request are confined to the sender (new or changed certificates within its entitlement, removed certificates only for keys it had in use, other children and the parent\'s identity untouched, published URIs under its jail, other publishers untouched); replies carry the server side\'s identity key of that moment; no apply-panic is reachable. For the local shortcut (repaired tree: the caller\'s ID key is compared with the key registered for the child named in its contact) the same statement is proved, a caller with any other key is refused without change, and the shortcut coincides in every case with the remote path fed with a correctly addressed message signed by the caller; the originally pinned shortcut, which involved no key, is kept as local6492_pinned with its refutation (F12a witness: a CA whose stored parent contact names another child\'s handle was served as that child) as a regression witness. The publication shortcut serves a CA of the instance as the publisher carrying its handle without any key (candidate F12b): refuted statement, restriction under publisher_handle_matches_registration, probe on the real code. Tied to the code by a correspondence run: harness-built CMS (keys from the runtime\'s signer and a second harness-owned signer) fed to the real CaManager::rfc6492 / RepositoryManager::rfc8181 across signing keys x claimed senders x recipients x request kinds, before/after identity updates and across an implicit unsuspend, each transition evaluated inside Coq against the model and against the executable form of the theorems. The single-bit corruption sweep of valid messages is testing (exploration evidence), not proof: unforgeability and the DER/CMS decoder are not proved.',
+    'text': 'Theorems (Coq, closed under the global context; the only cryptographic input is the explicit hypothesis cms_sound: validation under key k succeeds iff signed by k and intact) about a model of the parent-side RFC 6492 handler, the publication server\'s RFC 8181 handler and the local shortcut, for every state, message and history of messages and identity updates: a request that is not refused was signed with the ID key registered at that moment for the sender named in the message (RFC 8181: in the URL) and is acted upon for that sender only; anything else - another child\'s key, a replaced identity, a random key, unknown sender, altered content - is refused with state and history unchanged; effects of an accepted request are confined to the sender (new or changed certificates within its entitlement, removed certificates only for keys it had in use, other children and the parent\'s identity untouched, published URIs under its jail, other publishers untouched); replies carry the server side\'s identity key of that moment; no apply-panic is reachable. For the local shortcut (repaired tree: the caller\'s ID key is compared with the key registered for the child named in its contact) the same statement is proved, a caller with any other key is refused without change, and the shortcut coincides in every case with the remote path fed with a correctly addressed message signed by the caller; the originally pinned shortcut, which involved no key, is kept as local6492_pinned with its refutation (F12a witness: a CA whose stored parent contact names another child\'s handle was served as that child) as a regression witness. The publication shortcut is treated the same way (repaired tree: the caller\'s ID key is compared with the key registered for the publisher that carries its handle): positive theorem, refusal without change, equality with the remote path, and local8181_pinned with its refutation (F12b witness: a CA of the instance named like a publisher registered with another ID key was served as that publisher) as a regression witness. Tied to the code by a correspondence run: harness-built CMS (keys from the runtime\'s signer and a second harness-owned signer) fed to the real CaManager::rfc6492 / RepositoryManager::rfc8181 across signing keys x claimed senders x recipients x request kinds, before/after identity updates and across an implicit unsuspend, each transition evaluated inside Coq against the model and against the executable form of the theorems. The single-bit corruption sweep of valid messages is testing (exploration evidence), not proof: unforgeability and the DER/CMS decoder are not proved.',
     'design_ref': 'DESIGN.md section 5 C12; section 6 F12a',
     'note': 'Level: proof for the decision logic after signature validation under cms_sound; testing (exploration) for decoder and signature check (bit-flip sweep). Trusted: Coq kernel + vm_compute; harness abstraction of CertAuth/status/repository state and decoded messages. Modelled not verified: src/server/ca/manager.rs rfc6492 path and local shortcut, src/server/ca/certauth.rs verify/sign/child certify/revoke/unsuspend/list, src/server/pubd/manager.rs + access.rs rfc8181 path, pubd/rrdp.rs verify_delta_applies/apply_delta, eventsourcing/store.rs command bookkeeping. Outside: rpki crate CMS/XML/DER decoding and OpenSSL signature verification, the TA as parent, class-name mappings, certificate validity times.',
     'technique': 'Coq proof over a message/identity model with an explicit signature-soundness hypothesis + correspondence evaluated in Coq + single-bit corruption testing',
